@@ -1,6 +1,6 @@
 (* Proofs/C18.v *)
 From Coq Require Import List NArith Lia Bool.
-From EZK Require Import Lib.Bytes Model.C18.
+From EZK Require Import Gen.Tables Lib.Bytes Model.C18.
 Import ListNotations.
 Open Scope N_scope.
 
@@ -54,6 +54,34 @@ Proof. unfold creds_for. now intros ->. Qed.
 
 Lemma creds_default st realm : store_get realm (fst st) = None -> creds_for st realm = snd st.
 Proof. unfold creds_for. now intros ->. Qed.
+
+(* the store: what add_for_realm and set_default leave behind *)
+Lemma store_add_same realm c m : auth_store_add_replaces = true -> store_get realm (store_add realm c m) = Some c.
+Proof.
+  intros G. induction m as [|[r c0] t IH]; cbn [store_add store_get].
+  - now rewrite bytes_eqb_refl.
+  - destruct (bytes_eqb r realm) eqn:E; cbn [store_get]; rewrite E; [now rewrite G | exact IH].
+Qed.
+
+Lemma store_add_other realm realm' c m : realm' <> realm -> store_get realm' (store_add realm c m) = store_get realm' m.
+Proof.
+  intros N. induction m as [|[r c0] t IH]; cbn [store_add store_get].
+  - destruct (bytes_eqb realm realm') eqn:E; [|reflexivity]. apply bytes_eqb_eq in E. congruence.
+  - destruct (bytes_eqb r realm) eqn:E; cbn [store_get].
+    + apply bytes_eqb_eq in E. subst r. destruct (bytes_eqb realm realm') eqn:E'; [|reflexivity].
+      apply bytes_eqb_eq in E'. congruence.
+    + destruct (bytes_eqb r realm'); [reflexivity | exact IH].
+Qed.
+
+Lemma add_for_realm_chosen realm c st : auth_store_add_replaces = true -> creds_for (add_for_realm realm c st) realm = Some c.
+Proof. intros G. unfold creds_for, add_for_realm. cbn [fst snd]. now rewrite store_add_same. Qed.
+
+Lemma add_for_realm_others realm realm' c st : realm' <> realm -> creds_for (add_for_realm realm c st) realm' = creds_for st realm'.
+Proof. intros N. unfold creds_for, add_for_realm. cbn [fst snd]. now rewrite store_add_other. Qed.
+
+Lemma set_default_spec c st realm :
+  creds_for (set_default c st) realm = match store_get realm (fst st) with Some x => Some x | None => Some c end.
+Proof. reflexivity. Qed.
 
 Lemma first_answerable_spec enforce rej es l p ch :
   first_answerable enforce rej es l = Some (p, ch) ->
